@@ -136,3 +136,10 @@ TARGETS += [M_DCFG + ":DefaultApplicationConfig.resolve_help_command", M_DCFG + 
 from . import question_contracts as qc  # noqa: E402
 TARGETS += [qc.M_Q + ":Question.ask"]
 R.opaque_hook = qc.opaque_question  # the validator / interviewer of a question are arbitrary callables (as under C18)
+
+# "the quiet switch suppresses all output of the run including error reports; -v/-vv/-vvv select the verbosity levels":
+# create_io.post sets the quiet flag and the verbosity of both outputs from the switches (above); that a quiet output
+# then passes nothing -- on every write path of Output / SectionOutput / IO -- is the gate of C10, whose contracts are
+# re-verified here as part of this property
+from . import C10 as _c10  # noqa: E402
+TARGETS += [t for t in _c10.TARGETS if t not in TARGETS]
